@@ -141,11 +141,25 @@ func runC15(rc *RC) {
 	// and falls behind again: every packet fits, none may be refused
 	lagDrain := overflow && ch.Chance("workload", 1, 2)
 	lagLimit, lagS1 := 0, 0
-	part1Done := false
+	part1Done, exactFit := false, false
 	if lagDrain {
 		lagLimit = block * ch.Range("workload", 8, 24)
 		lagS1 = lagLimit/2 + ch.Range("workload", 1, lagLimit/2-block)
+		if ch.Chance("workload", 1, 3) {
+			// … or the reader does not read at all until the writer has closed, and what was written fills the buffer to
+			// the last byte: the packet that Close flushes carries the one or two bytes left over from the last base64
+			// group (text with padding: what counts is the data it carries), and it fits
+			exactFit = true
+			lagS1 = lagLimit - ch.Int("workload", 3)
+			for lagS1%3 == 0 {
+				lagS1--
+			}
+			rc.Fire("lag-to-the-limit")
+		}
 		s2 := ch.Range("workload", block, lagLimit-block)
+		if exactFit {
+			s2 = 0
+		}
 		payload = make([]byte, lagS1+s2)
 		for i := range payload {
 			payload[i] = byte(33 + (i*11)%90)
@@ -324,8 +338,11 @@ func runC15(rc *RC) {
 				return nil
 			}
 			werrA = small(payload[:lagS1])
-			part1Done = true
+			part1Done = !exactFit
 			simrt.WaitUntil("writer-a:reader-caught-up", func() bool {
+				if exactFit {
+					return true
+				}
 				return len(rdB.got) >= lagS1-2 || rdB.done || acceptErr != nil || werrA != nil || phase >= 2
 			})
 			if werrA == nil {
@@ -408,9 +425,16 @@ func runC15(rc *RC) {
 	if lagDrain {
 		rc.Evals["C15.c4"]++
 		rc.Fire("lag-then-drain")
-		ca := rc.Spawn("close-a", func() { connA.Close() })
+		var closeErrA error
+		ca := rc.Spawn("close-a", func() { closeErrA = connA.Close() })
+		if exactFit {
+			rc.S.Run(func() bool { return ca.Done() }, 400000, time.Minute)
+			part1Done = true
+		}
 		rc.S.Run(func() bool { return rdB.done && ca.Done() }, 400000, time.Minute)
-		if werrA != nil {
+		if exactFit && werrA == nil && ca.Done() && closeErrA != nil {
+			rc.Failf("C15.c4", "packet-within-buffer-refused:at-close", "the reader had read nothing of the %d bytes written when the writer closed; its receive buffer holds %d bytes, so the %d byte(s) that Close flushes fit, but Close returned %v", lagS1, lagLimit, lagS1%3, closeErrA)
+		} else if werrA != nil {
 			rc.Failf("C15.c4", "packet-within-buffer-refused", "the reader was at most %d bytes behind a receive buffer of %d bytes (it had caught up after the first %d bytes), packets carry at most %d bytes, but writing ended with %v", max(lagS1, len(payload)-lagS1), lagLimit, lagS1, block, werrA)
 		} else if !bytes.Equal(rdB.got, payload) || !rdB.eof {
 			rc.Failf("C15.c2", "lagging-reader-data", "the reader got %d of %d bytes (equal prefix %d), eof=%v err=%v", len(rdB.got), len(payload), commonPrefix(rdB.got, payload), rdB.eof, rdB.err)
